@@ -530,6 +530,32 @@ def r19_eval(ctx, repo):
     if mb.call("tell") != ("ok", 0):
         fail("resources independent", "seek on one file object moves the "
              "position of another")
+    # a file object opened later on the same URL reads the resource as it
+    # is then (the resource was replaced in between: other length, other
+    # validator) – nothing a previous object learnt about the URL survives
+    # outside that object
+    for newres, what in ((bytes(range(201, 212)), "longer"),
+                         (bytes(range(201, 206)), "shorter")):
+        m1 = Model(repo, resA, 3, 2)
+        r1 = m1.call("read_range_cached", 0, len(resA))
+        m1.call("seek", 0, 2)
+        m1.session.res = newres
+        m1.session.etag = '"0123456789abcdef-new"'
+        m2 = m1.again(3, 2)
+        m2.call("seek", 0, 2)
+        t2 = m2.call("tell")
+        m2.call("seek", 0)
+        r2 = m2.call("read")
+        n_eval += 4
+        if r1 != ("ok", resA) or t2 != ("ok", len(newres)) \
+                or r2 != ("ok", newres):
+            fail("resources independent", f"a resource of {len(resA)} bytes "
+                 f"is read through one file object, replaced on the server "
+                 f"by a {what} one ({len(newres)} bytes, new ETag) and "
+                 f"opened again through a new file object on the same URL: "
+                 f"seek(0, 2); tell() -> {t2!r}, read() -> {r2!r}; expected "
+                 f"{len(newres)} and the new bytes: length / ETag of the "
+                 "URL are remembered outside the file object")
     ctx.stat("R19 model evaluations", n_eval)
     ctx.stat("R19 model family", [list(x) for x in _family(ctx.tier)])
     rd, rr, gc = fn["read"], fn["read_range_cached"], fn["get_cache_chunk"]
@@ -800,6 +826,77 @@ def r198(ctx, repo):
     ctx.stat("R19.8 lazy memos", n)
 
 
+def r199(ctx, repo):
+    """Every place that derives a TCP port from a parsed URL (the
+    reachability probes of http_utils and fmt_s3, the endpoint
+    normalisation of fmt_s3) computes: explicit port of the URL if it has
+    one, else 80 for http, else 443.  A probe that knocks at another port
+    than the one the data are fetched from reports a reachable resource as
+    unavailable (the dataset / basin then silently lacks its remote
+    features).  The parsed expression is evaluated on the table."""
+    import types
+    sites = []
+    for rel in (HU, S3):
+        for fn in [n for n in ast.walk(repo.tree(rel))
+                   if isinstance(n, (ast.FunctionDef, ast.AsyncFunctionDef))]:
+            for st in ast.walk(fn):
+                if not isinstance(st, ast.Assign) or len(st.targets) != 1 \
+                        or not isinstance(st.targets[0], ast.Name):
+                    continue
+                ports = [a for a in ast.walk(st.value)
+                         if isinstance(a, ast.Attribute) and a.attr == "port"
+                         and isinstance(a.value, ast.Name)]
+                if ports and "port" in st.targets[0].id:
+                    sites.append((rel, fn, st, ports[0].value.id))
+    if len(sites) < 3:
+        raise AnalysisError(f"only {len(sites)} port computations found "
+                            "(3 confirmed by reading)")
+    for rel, fn, st, obj in sites:
+        # single-assignment locals the expression reads besides the URL
+        # object (e.g. `scheme = urlp.scheme or "https"`)
+        need = names_in(st.value) - {obj}
+        pre = []
+        for nm in sorted(need):
+            defs = [a for a in ast.walk(fn) if isinstance(a, ast.Assign)
+                    and len(a.targets) == 1 and txt(a.targets[0]) == nm]
+            if len(defs) != 1 or names_in(defs[0].value) - {obj}:
+                raise AnalysisError(f"{rel}::{fn.name}: `{nm}` read by the "
+                                    "port expression is not a single "
+                                    "assignment from the parsed URL")
+            pre.append((nm, defs[0].value))
+        bad = None
+        for scheme in ("http", "https", ""):
+            for port in (None, 80, 443, 8443):
+                env = {obj: types.SimpleNamespace(
+                    port=port, scheme=scheme, hostname="host",
+                    netloc="host" if port is None else f"host:{port}")}
+                try:
+                    for nm, val in pre:
+                        env[nm] = eval(compile(ast.Expression(val), "<m>",
+                                               "eval"), {"__builtins__": {}},
+                                       env)
+                    got = eval(compile(ast.Expression(st.value), "<m>",
+                                       "eval"), {"__builtins__": {"int": int,
+                                                                  "str": str}},
+                               env)
+                except Exception as e:   # noqa: BLE001
+                    raise AnalysisError(f"{rel}::{fn.name}: port expression "
+                                        f"not evaluable on the table: {e}")
+                want = port if port is not None else (
+                    80 if scheme == "http" else 443)
+                if got != want and bad is None:
+                    bad = (scheme, port, got, want)
+        ctx.ob("R19.9", bad is None,
+               f"`{short(st, 60)}`: explicit port, else 80 for http, else "
+               "443 (12 table rows)" if bad is None else
+               f"`{short(st, 70)}`: URL with scheme {bad[0]!r} and "
+               f"{'no port' if bad[1] is None else 'port ' + str(bad[1])} "
+               f"-> port {bad[2]!r}, expected {bad[3]} (operator precedence "
+               "of `or` / conditional expression?) – the resource is probed "
+               "at another port than it is served from",
+               node=st, key=f"{rel}::{fn.name}::port of the URL")
+
+
 def run(ctx):
     repo = ctx.repo
     ctx.rule("R19.7", "resource identity bound in __init__ only; explicit "
@@ -822,6 +919,10 @@ def run(ctx):
     ctx.rule("R19.8", "lazy listings of the HDF5 reader are published "
              "complete", minimum=6)
     r198(ctx, repo)
+    ctx.rule("R19.9", "the port a URL is probed / addressed at is the port "
+             "of the URL, else the default of its scheme – all sibling "
+             "sites, evaluated on the scheme x port table", minimum=3)
+    r199(ctx, repo)
 
 
 H5EVENTS = "dclab/rtdc_dataset/fmt_hdf5/events.py"
